@@ -8,7 +8,11 @@ from visions.types.date_time import DateTime
 @Date.register_relationship(DateTime, Sequence)
 def datetime_is_date(sequence: Sequence, state: dict) -> bool:
     value = time(0, 0)
-    return all(v.time() == value for v in sequence)
+    try:
+        return all(v.time() == value for v in sequence)
+    except (ValueError, TypeError, AttributeError):
+        # pd.NaT is a datetime instance without a time of day
+        return False
 
 
 @Date.register_transformer(DateTime, Sequence)
